@@ -37,6 +37,8 @@ PLAIN = {
     OPT + '::ok_or': ('O', 'ok_or'),                     # Some(v) -> Ok(v) ; None -> Err(arg)
     OPT + '::unwrap_or': ('O', 'unwrap_or'),             # Some(v) -> v ; None -> arg
     RES + '::unwrap_or': ('R', 'unwrap_or'),             # Ok(v) -> v ; Err(_) -> arg
+    OPT + '::cloned': ('O', 'cloned'),                   # Some(&v) -> Some(v.clone()) ; None -> None
+    OPT + '::copied': ('O', 'copied'),                   # Some(&v) -> Some(*v) ; None -> None
 }
 VIDX = {'Ok': 0, 'Err': 1, 'None': 0, 'Some': 1}
 ADT = {'Ok': RES, 'Err': RES, 'Some': OPT, 'None': OPT}
@@ -69,6 +71,15 @@ def desugar(crate, body):
         if t['k'] != 'call' or blk['cleanup'] or t.get('target') is None:
             continue
         name = strip_generics(t.get('callee_full', ''))
+        if name.endswith(' as core::iter::traits::iterator::Iterator>::for_each') and len(t['args']) == 2:
+            if T is None:
+                T = Terms(body)
+            f = norm(T.operand_term(t['args'][1], bi, len(blk['stmts'])))
+            while f[0] in ('ref', 'unsize', 'mutated'):
+                f = f[1]
+            if f[0] in ('closure', 'fn') and t['args'][0].get('k') in ('copy', 'move'):
+                plans.append((bi, name, 'L', None, 'for_each'))
+            continue
         if name in CATCH and len(t['args']) == 1:
             if T is None:
                 T = Terms(body)
@@ -126,6 +137,37 @@ def desugar(crate, body):
         at = t.get('at')
         frame = blk.get('frame', ())
         dest, target, unwind = t['dest'], t['target'], t['unwind']
+        if kind == 'L':
+            # it.for_each(f)  ==  loop { match it.next() { Some(x) => f(x), None => break } }   (std: in order, each once)
+            it = new_local('?iter')
+            blk['stmts'].append(_assign(it, {'k': 'use', 'op': t['args'][0]}, at))
+            fl = new_local('?fn')
+            blk['stmts'].append(_assign(fl, {'k': 'use', 'op': t['args'][1]}, at))
+            rf = new_local('&mut ?iter')
+            opt = new_local(OPT + '<?>')
+            d = new_local('isize')
+            unit = new_local('()')
+            b_exit = new_block([{'k': 'assign', 'place': dest, 'rv': {'k': 'agg', 'ak': 'tuple', 'ops': []}, 'at': at, 'synthetic': 'desugar'}],
+                               {'k': 'goto', 'target': target}, frame)
+            next_full = t.get('callee_full', '').split('>::for_each')[0] + '>::next'
+            b_head = new_block([_assign(rf, {'k': 'ref', 'bk': 'mut', 'place': {'l': it, 'p': []}}, at)], None, frame)
+            b_sw = new_block([_assign(d, {'k': 'discr', 'place': {'l': opt, 'p': []}, 'ty': OPT + '<?>'}, at)], None, frame)
+            tup = new_local('(?)')
+            b_call = new_block([_assign(tup, {'k': 'agg', 'ak': 'tuple', 'ops': [_payload(opt, 'Some')]}, at)],
+                               {'k': 'call', 'func': {'k': 'const', 'ty': '?', 'fn': 'core::ops::function::FnMut::call_mut',
+                                                      'fn_full': '<F as core::ops::function::FnMut<Args>>::call_mut', 'fn_args': [], 'zst': True, 'repr': 'call_mut'},
+                                'callee': 'core::ops::function::FnMut::call_mut', 'callee_full': '<F as core::ops::function::FnMut<Args>>::call_mut',
+                                'callee_args': [], 'callee_local': False, 'callee_name': 'call_mut', 'callee_trait': 'core::ops::function::FnMut',
+                                'resolved_kind': 'unresolved', 'args': [{'k': 'copy', 'place': {'l': fl, 'p': []}}, _mv(tup)], 'dest': {'l': unit, 'p': []}, 'dest_ty': '()',
+                                'target': b_head, 'unwind': unwind, 'at': at, 'at_root': t.get('at_root')}, frame)
+            blocks[b_head]['term'] = {'k': 'call', 'func': {'k': 'const', 'ty': '?', 'fn': 'core::iter::traits::iterator::Iterator::next', 'fn_full': next_full, 'fn_args': [], 'zst': True, 'repr': 'next'},
+                                      'callee': 'core::iter::traits::iterator::Iterator::next', 'callee_full': next_full, 'callee_args': t.get('callee_args', [])[:1],
+                                      'callee_local': False, 'callee_name': 'next', 'callee_trait': 'core::iter::traits::iterator::Iterator', 'resolved_kind': 'unresolved',
+                                      'args': [_mv(rf)], 'dest': {'l': opt, 'p': []}, 'dest_ty': OPT + '<?>', 'target': b_sw, 'unwind': unwind, 'at': at, 'at_root': t.get('at_root')}
+            unreach_l = new_block([], {'k': 'unreachable'}, frame)
+            blocks[b_sw]['term'] = {'k': 'switch', 'discr': _mv(d), 'discr_ty': 'isize', 'targets': [['0', b_exit], ['1', b_call]], 'otherwise': unreach_l, 'at': at}
+            blk['term'] = {'k': 'goto', 'target': b_head, 'at': at}
+            continue
         if kind == 'C':
             fop = t['args'][0]
             if variant:     # AssertUnwindSafe(closure): the closure is field 0
@@ -204,6 +246,20 @@ def desugar(crate, body):
                 b_no = finish([set_dest(_agg('None', []))])
             elif how == 'ok':
                 b_ok = finish([take, set_dest(_agg('Some', [_mv(p)]))])
+                b_no = finish([set_dest(_agg('None', []))])
+            elif how == 'copied':
+                q = new_local()
+                b_ok = finish([take, _assign(q, {'k': 'use', 'op': {'k': 'copy', 'place': {'l': p, 'p': [['deref']]}}}, at), set_dest(_agg('Some', [_mv(q)]))])
+                b_no = finish([set_dest(_agg('None', []))])
+            elif how == 'cloned':
+                q = new_local()
+                b_fin = finish([set_dest(_agg('Some', [_mv(q)]))])
+                blocks.append({'cleanup': False, 'frame': frame, 'stmts': [take],
+                               'term': {'k': 'call', 'func': {'k': 'const', 'ty': '?', 'fn': 'core::clone::Clone::clone', 'fn_full': '<T as core::clone::Clone>::clone', 'fn_args': [], 'zst': True, 'repr': 'clone'},
+                                        'callee': 'core::clone::Clone::clone', 'callee_full': '<T as core::clone::Clone>::clone', 'callee_args': [], 'callee_local': False,
+                                        'callee_name': 'clone', 'callee_trait': 'core::clone::Clone', 'resolved_kind': 'unresolved', 'args': [_mv(p)],
+                                        'dest': {'l': q, 'p': []}, 'dest_ty': '?', 'target': b_fin, 'unwind': unwind, 'at': at, 'at_root': t.get('at_root')}})
+                b_ok = len(blocks) - 1
                 b_no = finish([set_dest(_agg('None', []))])
             elif how == 'err':
                 b_ok = finish([set_dest(_agg('None', []))])
